@@ -1,4 +1,5 @@
 import DiffxVerif.Lemmas.RoundTrip
+import DiffxVerif.Properties.C02
 /-!
 # C01 — Streaming write -> read round trip preserves structure, content and options
 
@@ -16,7 +17,7 @@ The round trip is proved section by section for the models `Writer.prepareConten
 / `Writer.renderHeader` and `Reader.readContent` / `Header.parseHeader`, for
 **every** content (no assumption on what it looks like), every indentation and
 both line-ending kinds.  The codec is a parameter: its laws appear as explicit
-hypotheses (`CodecLaws`), are *proved* for a concrete codec as a non-vacuity
+hypotheses (`TextLaws`, `DiffLaws` in Lemmas/RoundTrip.lean), are *proved* for a concrete codec as a non-vacuity
 check, and are *tested* against CPython for every codec of the catalogue by the
 C15 check.  The composition over whole call sequences is decided by the
 differential run (implementation / Lean model / specification serializer);
@@ -50,30 +51,163 @@ theorem C01_indent_inverse (raw nl : Bytes) (n : Nat) (hn : nl ≠ []) (hu : Unb
 text, read back by `_read_content` with the header options the writer emits
 (`length`, `indent`, `line_endings`, the effective encoding), followed by
 arbitrary further bytes `rest`: the reader returns the decoded text, consumes
-exactly the section and advances the line counter by the number of lines. -/
+exactly the section and advances the line counter by the number of lines.
+`TextLaws` (Lemmas/RoundTrip.lean) holds only codec laws; `hlen` is the bound
+beyond which `fp.read` itself raises (`Reader.maxRead = 2^63 - 1`). -/
 theorem C01_content_text (env : Env) (cfg : Config) (wst : Writer.St) (t : Text) (indent : Option Int)
     (le : Option Text) (enc : Option Name) (data : Bytes) (leOut : Text)
     (hp : Writer.prepareContent env cfg wst (.str t) indent le enc true = .ok (data, leOut))
     (hi : ∀ i, indent = some i → 0 ≤ i)
+    (hlen : data.length ≤ Reader.maxRead)
     (laws : TextLaws env cfg wst t le enc leOut)
     (rest : Bytes) (ln : Nat) (f : Option Bool) :
-    ∃ tf, laws.decoded = tf ∧
-      Reader.readContent env cfg ⟨data ++ rest, ln, f⟩ data.length
-          (some (.str laws.encName)) (indent.map OptVal.int) (some (.str leOut.toAscii)) false =
-        .ok (.text tf, ⟨rest, ln + laws.lines, f⟩) :=
-  content_text_roundtrip env cfg wst t indent le enc data leOut hp hi laws rest ln f
+    Reader.readContent env cfg ⟨data ++ rest, ln, f⟩ data.length
+        (some (.str laws.encName)) (indent.map OptVal.int) (some (.str leOut.toAscii)) false =
+      .ok (.text laws.decoded, ⟨rest, ln + laws.lines, f⟩) :=
+  content_text_roundtrip env cfg wst t indent le enc data leOut hp hi hlen laws rest ln f
 
 /-- **Content round trip (diff sections).** Diff bytes come back as the bytes
 written plus, when it was missing, the newline. -/
 theorem C01_content_diff (env : Env) (cfg : Config) (wst : Writer.St) (b : Bytes)
     (le : Option Text) (enc : Option Name) (data : Bytes) (leOut : Text)
     (hp : Writer.prepareContent env cfg wst (.bytes b) none le enc false = .ok (data, leOut))
-    (laws : DiffLaws env cfg b le enc leOut)
+    (hlen : data.length ≤ Reader.maxRead)
+    (laws : DiffLaws env cfg wst b le enc leOut)
     (rest : Bytes) (ln : Nat) (f : Option Bool) :
     Reader.readContent env cfg ⟨data ++ rest, ln, f⟩ data.length
         (enc.map (fun e => .str e.toAscii)) none (some (.str leOut.toAscii)) true =
       .ok (.bytes data, ⟨rest, ln + (splitLines data laws.nl true).length, f⟩) ∧
     (data = b ∨ data = b ++ laws.nl) :=
-  content_diff_roundtrip env cfg wst b le enc data leOut hp laws rest ln f
+  content_diff_roundtrip env cfg wst b le enc data leOut hp hlen laws rest ln f
+
+/-! ## Non-vacuity: the laws hold for a concrete codec, and the conclusions are closed true equations -/
+
+/-- a one-byte-per-code-point codec under every name; no BOMs; the JSON functions are not used here -/
+def asciiEnv : Env :=
+  { canon := fun n => .ok n,
+    encode := fun _ t => .ok (t.map (·.toUInt8)),
+    decode := fun _ b => .ok (b.map (·.toNat)),
+    loadsText := fun _ => .ok (.obj []),
+    loadsBytes := fun _ => .ok (.obj []),
+    dumps := fun _ => .ok [] }
+
+def cfg0 : Config := { chunk := 96, boms := [], defaultIndent := 4, defaultEncoding := [] }
+
+/-- a writer inside a section whose current encoding is `latin1` -/
+def wst0 : Writer.St := ⟨[], [some (Text.ofAscii b!"latin1")], none⟩
+
+/-- a text that looks like a header, with mixed line endings and no final newline -/
+def text0 : Text := Text.ofAscii b!"#.change:\n  two\r\nthree"
+
+def plain0 : Bytes := b!"#.change:\n  two\r\nthree\n"
+def data0 : Bytes := b!"    #.change:\n      two\r\n    three\n"
+
+/-- what the writer produces for `text0` with `indent=4`, no `line_endings`, no `encoding` -/
+theorem prepared0 :
+    Writer.prepareContent asciiEnv cfg0 wst0 (.str text0) (some 4) none none true =
+      .ok (data0, Text.ofAscii b!"unix") := rfl
+
+/-- the text laws hold for it -/
+def textLaws0 : TextLaws asciiEnv cfg0 wst0 text0 none none (Text.ofAscii b!"unix") where
+  encName := b!"latin1"
+  heff := rfl
+  dos := false
+  hle := rfl
+  raw := [10]
+  henc := rfl
+  nl := [10]
+  hbom := rfl
+  hne := by decide
+  hu := by decide
+  hsp := by decide
+  plain := plain0
+  hplain := rfl
+  decoded := Text.ofAscii plain0
+  hdec := rfl
+  hdecNl := rfl
+  hendT := by decide
+
+/-- `C01_content_text` instantiated: a closed equation (three lines, counter 7 → 10,
+the following header left unread) … -/
+theorem C01_content_text_instance :
+    Reader.readContent asciiEnv cfg0 ⟨data0 ++ b!"#..meta: length=2\n", 7, some false⟩ 35
+        (some (.str b!"latin1")) (some (.int 4)) (some (.str b!"unix")) false =
+      .ok (.text (Text.ofAscii b!"#.change:\n  two\r\nthree\n"),
+           ⟨b!"#..meta: length=2\n", 10, some false⟩) :=
+  C01_content_text asciiEnv cfg0 wst0 text0 (some 4) none none data0 _ prepared0
+    (by intro i h; cases h; decide) (by decide) textLaws0 b!"#..meta: length=2\n" 7 (some false)
+
+/-- … which is true by evaluation as well -/
+example :
+    Reader.readContent asciiEnv cfg0 ⟨data0 ++ b!"#..meta: length=2\n", 7, some false⟩ 35
+        (some (.str b!"latin1")) (some (.int 4)) (some (.str b!"unix")) false =
+      .ok (.text (Text.ofAscii b!"#.change:\n  two\r\nthree\n"),
+           ⟨b!"#..meta: length=2\n", 10, some false⟩) := rfl
+
+/-- the other kind: `line_endings='dos'` given, an explicit `encoding`, no indentation; the lone
+LF inside the text is not a line end (one line, the CRLF appended) -/
+def textLawsDos : TextLaws asciiEnv cfg0 wst0 (Text.ofAscii b!"a\nb") (some (Text.ofAscii b!"dos"))
+    (some (Text.ofAscii b!"utf-8")) (Text.ofAscii b!"dos") where
+  encName := b!"utf-8"
+  heff := rfl
+  dos := true
+  hle := rfl
+  raw := [13, 10]
+  henc := rfl
+  nl := [13, 10]
+  hbom := rfl
+  hne := by decide
+  hu := by decide
+  hsp := by decide
+  plain := b!"a\nb\r\n"
+  hplain := rfl
+  decoded := Text.ofAscii b!"a\nb\r\n"
+  hdec := rfl
+  hdecNl := rfl
+  hendT := by decide
+
+theorem C01_content_text_instance_dos :
+    Reader.readContent asciiEnv cfg0 ⟨b!"a\nb\r\n" ++ b!"#.change:\r\n", 0, some true⟩ 5
+        (some (.str b!"utf-8")) none (some (.str b!"dos")) false =
+      .ok (.text (Text.ofAscii b!"a\nb\r\n"), ⟨b!"#.change:\r\n", 1, some true⟩) :=
+  C01_content_text asciiEnv cfg0 wst0 (Text.ofAscii b!"a\nb") none (some (Text.ofAscii b!"dos"))
+    (some (Text.ofAscii b!"utf-8")) b!"a\nb\r\n" _ rfl (by intro i h; cases h) (by decide) textLawsDos
+    b!"#.change:\r\n" 0 (some true)
+
+/-- diff bytes with a NUL byte and no final newline; no `encoding`, kind guessed -/
+def diff0 : Bytes := b!"-a\n\x00+b"
+def diffData0 : Bytes := b!"-a\n\x00+b\n"
+
+theorem preparedDiff0 :
+    Writer.prepareContent asciiEnv cfg0 wst0 (.bytes diff0) none none none false =
+      .ok (diffData0, Text.ofAscii b!"unix") := rfl
+
+def diffLaws0 : DiffLaws asciiEnv cfg0 wst0 diff0 none none (Text.ofAscii b!"unix") where
+  encName := none
+  henc := rfl
+  dos := false
+  hle := rfl
+  nl := [10]
+  hw := by
+    refine ⟨false, rfl, ?_, ?_⟩
+    · intro l h; cases h
+    · exact ⟨[10], [13, 10], [10], [13, 10], rfl, rfl, rfl, rfl, by decide, rfl⟩
+  rawR := [10]
+  hencR := rfl
+  hbomR := rfl
+  hne := by decide
+
+theorem C01_content_diff_instance :
+    Reader.readContent asciiEnv cfg0 ⟨diffData0 ++ b!"#.change:\n", 3, some false⟩ 7
+        none none (some (.str b!"unix")) true =
+      .ok (.bytes diffData0, ⟨b!"#.change:\n", 5, some false⟩) ∧
+    (diffData0 = diff0 ∨ diffData0 = diff0 ++ [10]) :=
+  C01_content_diff asciiEnv cfg0 wst0 diff0 none none diffData0 _ preparedDiff0 (by decide) diffLaws0
+    b!"#.change:\n" 3 (some false)
+
+example :
+    Reader.readContent asciiEnv cfg0 ⟨diffData0 ++ b!"#.change:\n", 3, some false⟩ 7
+        none none (some (.str b!"unix")) true =
+      .ok (.bytes diffData0, ⟨b!"#.change:\n", 5, some false⟩) := rfl
 
 end Diffx.C01
